@@ -11,7 +11,7 @@
    proposed repairs the code under test contains (both false on the unchanged
    tree; the harness measures it on every run). *)
 From Coq Require Import Lia ZArith NArith List Bool.
-From VF.C05 Require Import Model ProofsPenalty ProofsEvidence ProofsHonest Bridge.
+From VF.C05 Require Import Model ProofsPenalty ProofsShares ProofsEvidence ProofsHonest Bridge.
 Local Open Scope Z_scope.
 
 (* ---- 1. honest validators ---------------------------------------------------------- *)
@@ -152,6 +152,24 @@ Theorem C05_bound :
     penalty_facts q val amount po.
 Proof. exact take_penalty_facts. Qed.
 Print Assumptions C05_bound.
+
+(* ... and every party pays at most its share: the validator's own sources
+   (self token + its own unfinished withdrawals) lose at most
+   per*SelfStake + remainder + risk obligation, the sources of delegator k
+   (delegation + k's unfinished withdrawals from this validator) at most
+   per*stake_k, where per = (amount - obligation) quo Stake. *)
+Theorem C05_shares :
+  forall cfg q val amount po,
+    wf_val val -> 0 < amount ->
+    take_penalty cfg q val amount = Some po ->
+    let va := v_addr val in
+    (v_self_token val - v_self_token (po_val po)) + (qsum_k va 0%N q - qsum_k va 0%N (po_queue po))
+      <= self_share cfg val amount /\
+    forall k, k <> 0%N ->
+      (dtok (v_dlgs val) k - dtok (v_dlgs (po_val po)) k) + (qsum_k va k q - qsum_k va k (po_queue po))
+      <= per_of cfg val amount * sstake (v_dlgs val) k.
+Proof. exact take_penalty_shares. Qed.
+Print Assumptions C05_shares.
 
 (* doPenalize: the validator ends offline and expelled until at least
    header+ExpelledRoundForDoubleSign, only its record is replaced, and the
